@@ -55,6 +55,9 @@ CHECKS = {
     "C13": dict(engine="GaussOps", ref="5/C13",
                 text="spec/GaussOps.tla computes, over exact rationals, the dense form (P, eta, c) of every Gaussian leaf of a catalogue (batched, interleaved input orders, vector inputs, over-complete and rank-deficient square roots) and the closed forms: marginal over every subset of real inputs with block dimension <= 3 (Schur complement by adjugate; constants kept symbolically as q + k/2 log 2pi - 1/2 log p), log-normaliser, mean, covariance, E[x] and E[quadratic]; TLC checks in the model that two-stage marginalisation equals one-stage for every split. The harness runs g.reduce(logaddexp, subset) in one and two stages at every sample point and batch index, log_normalizer, Integrate against a variable and against a Gaussian, mixture reduction over integer inputs, and the same Gaussian rebuilt from 5 keyword parametrisations, and compares every value; full-rank cases must complete, a singular block must raise or be non-finite.",
                 note="trusted: TLC + GaussOps.tla linear algebra, harness float conversion, tolerance 1e-6 (conditioning not under test); mixtures: the harness takes log-sum-exp of TLC's per-component values; moment matching and plate sums are not yet covered by this engine (plate sums of Gaussians are exercised by the thorough C12 lens)"),
+    "C14": dict(engine="Judge+TermMachine", ref="5/C14",
+                text="Sampling is specified relationally in spec/Judge.tla (JudgeSample): the sample of f over the sampled variables has f's inputs plus the sample inputs and f's output, every point with finite value lies in the support of f, and for every batch element and particle its total mass over the sampled variables equals f's - TLC accepts ANY draw satisfying this. spec/SampleGen.tla enumerates log-density tensors (1-3 inputs, minus-infinity patterns) x every non-empty subset of sampled variables x 0-2 sample inputs; the harness calls x.sample with 3 seeds, twice each (identical result required: deterministic in the random state), serialises the returned Delta/Tensor term and TLC validates it. Delta semantics: the delta_ops TermMachine lens builds Deltas at numbers, batched tensors and lazy expressions (integer and real valued), evaluates them at and away from the point, adds funsors and reduces over the Delta's variable; eager values are compared with the L1 denotation (log-density at the point, minus infinity elsewhere).",
+                note="trusted as C01/C02 (float log-values are snapped to logs of small integer ratios, unrepresentable events are skipped and counted); Gaussian sampling, Integrate against a Delta and the MonteCarlo interpretation are not yet covered; unbiasedness is statistical and not addressed; one open finding (reduction of a non-unit-mass Delta drops its log_density)"),
 }
 
 NOT_YET = "check not built yet in this round (planned, see DESIGN.md section 5)"
